@@ -42,15 +42,22 @@ def _mps(ev, st, prog, name: str):
 
 def _in_unit(ev, st, prog, q, unit: str):
     if isinstance(q, Inst):
-        get_in = prog.find_method(q.cls, 'get_in')
-        r, _ = ev.call_value(get_in, [C.enum_val(prog, unit)], self_val=q, st=st)
-        return r
+        raw_ = st.heap[q.oid].get('_value')
+        return ev.lift(lambda r_: Scalar(C.read_raw_in(ev, prog, q.cls.name, r_, unit)) if isinstance(r_, Scalar) else r_, raw_)
+    return q
+
+
+def _redisplay(ev, st, q, prog, unit: str):
+    """Same magnitude, displayed in another unit: code that reads display values instead of converting shows up."""
+    if isinstance(q, Inst):
+        st.heap[q.oid]['_defined_units'] = C.enum_val(prog, unit)
     return q
 
 
 def _mk_ammo(ev, st, prog, sens, modifier='m'):
     ac = prog.cls(C.M_MUN, 'Ammo')
-    return ev.new_inst(st, ac, {'mv': _mps(ev, st, prog, 'v0'), 'powder_temp': _celsius(ev, st, prog, 'T0'),
+    return ev.new_inst(st, ac, {'mv': _redisplay(ev, st, _mps(ev, st, prog, 'v0'), prog, 'KMH'),
+                                'powder_temp': _redisplay(ev, st, _celsius(ev, st, prog, 'T0'), prog, 'Rankin'),
                                 'temp_modifier': S(modifier) if isinstance(modifier, str) else modifier,
                                 'use_powder_sensitivity': sens, 'dm': NONE})
 
@@ -137,7 +144,7 @@ def run(prog: Program, rep, thorough: bool) -> None:
     def reader(mod_value) -> Optional[A.RF]:
         st2 = State()
         am = _mk_ammo(ev, st2, prog, Const(True), mod_value)
-        r2, st2 = ev.call_value(gv, [_celsius(ev, st2, prog, 'T')], self_val=am, st=st2)
+        r2, st2 = ev.call_value(gv, [_redisplay(ev, st2, _celsius(ev, st2, prog, 'T'), prog, 'Fahrenheit')], self_val=am, st=st2)
         outs = []
         for _p, leaf in cond_leaves(r2):
             raw = _in_unit(ev, st2, prog, leaf, 'MPS') if isinstance(leaf, Inst) else None
@@ -154,6 +161,16 @@ def run(prog: Program, rep, thorough: bool) -> None:
         raise AnalysisError(f'get_velocity_for_temp (enabled): {exc}') from exc
     v0, m, T, T0 = A.sym('v0'), A.sym('m'), A.sym('T'), A.sym('T0')
     want = v0 + m * v0 / 15 * (T - T0)
+    # a bare number as query temperature must take the same path (no test on the number itself)
+    st_b = State()
+    am_b = _mk_ammo(ev, st_b, prog, Const(True))
+    rb, st_b = ev.call_value(gv, [S('Tbare')], self_val=am_b, st=st_b)
+    bare_guards = [t for p_, _l in cond_leaves(rb) for t, _pol in p_
+                   if (t.rf is not None and 'Tbare' in t.rf.symbols()) or 'Tbare' in t.key]
+    if bare_guards:
+        rep.fail('C17.R2', mun.path, gv.node.lineno, gv.qualname, 'bare-query',
+                 f'with sensitivity enabled the result depends on a test of the query temperature itself ({bare_guards[0]!r}): '
+                 f'a bare 0 does not give the point on the line')
     if v_of_T is not None and v_of_T.equals(want):
         rep.ok('C17.R2', gv.where, f'v(T) = {want!r}: linear in T, v(T0) = v0, slope m*v0/15')
     else:
@@ -164,7 +181,8 @@ def run(prog: Program, rep, thorough: bool) -> None:
     st = State()
     ammo = _mk_ammo(ev, st, prog, Const(True))
     try:
-        ret, st = ev.call_value(cps, [_mps(ev, st, prog, 'v1'), _celsius(ev, st, prog, 't1')], self_val=ammo, st=st)
+        ret, st = ev.call_value(cps, [_redisplay(ev, st, _mps(ev, st, prog, 'v1'), prog, 'KT'),
+                                      _redisplay(ev, st, _celsius(ev, st, prog, 't1'), prog, 'Kelvin')], self_val=ammo, st=st)
     except Undecided as exc:
         raise AnalysisError(f'calc_powder_sens: {exc}') from exc
     stored = st.heap[ammo.oid].get('temp_modifier')
@@ -276,6 +294,8 @@ VARIANTS = [
     Variant('calibration-rejects-nothing', 'break', [(MUN, 'if v_delta == 0 or t_delta == 0:', 'if v_delta == 0 and t_delta == 0:')], 'C17.R3'),
     Variant('calibration-by-slower-velocity', 'break', [(MUN, 'self.temp_modifier = v_delta / t_delta * (15 / v0)', 'self.temp_modifier = v_delta / t_delta * (15 / min(v0, v1))')], 'C17.R3', 'the defect repaired by 5912e58'),
     Variant('calibration-abs-deltas', 'break', [(MUN, 'v_delta = v1 - v0\n', 'v_delta = abs(v1 - v0)\n')], 'C17.R3', 'signs dropped'),
+    Variant('query-zero-means-not-given', 'break', [(MUN, '        if not self.use_powder_sensitivity:\n            return self.mv\n', '        if not self.use_powder_sensitivity or not current_temp:\n            return self.mv\n')], 'C17.R2', 'a bare 0 query returns the stated velocity'),
+    Variant('calibration-from-display-values', 'break', [(MUN, '        v0 = self.mv >> Velocity.MPS\n        t0 = self.powder_temp >> Temperature.Celsius\n        v1 = PreferredUnits.velocity(other_velocity) >> Velocity.MPS', '        v0 = self.mv.unit_value\n        t0 = self.powder_temp >> Temperature.Celsius\n        v1 = PreferredUnits.velocity(other_velocity).unit_value')], 'C17.R3', 'ratio of display values: wrong once mv is displayed in another unit'),
     Variant('twin-disabled-fresh-quantity', 'twin', [(MUN, '        if not self.use_powder_sensitivity:\n            return self.mv\n', '        if not self.use_powder_sensitivity:\n            return Velocity.MPS(self.mv >> Velocity.MPS)\n')], None),
     Variant('twin-reader-respelled', 'twin', [(MUN, 'self.temp_modifier / (15 / v0) * t_delta + v0', 'v0 + self.temp_modifier * v0 * t_delta / 15')], None),
 ]
